@@ -231,6 +231,9 @@ func c17EnumCalls(levels int, ops []byte, maxLen int, regs int, f func([]c17Call
 			cp := make([]c17Call, len(prefix))
 			for i, cl := range prefix {
 				cl.reg = i % regs
+				if cl.op == 'n' {
+					cl.reg = regs // ReadNew results go to a register of their own (they may have fewer rows)
+				}
 				cp[i] = cl
 			}
 			f(cp)
@@ -265,7 +268,7 @@ func c17UniformInterleavings(c *Ctx) {
 			st.SM(c.rng.U64(), 1024*(1+c.rng.Intn(2+len(calls)))) // may run dry
 		}
 		k++
-		c17Sess(c, N, chain, []c17Kind{{tag: "u"}}, st, c17Regs(c, 2, N, chain, k%3), calls)
+		c17Sess(c, N, chain, []c17Kind{{tag: "u"}}, st, c17Regs(c, 3, N, chain, k%3), calls)
 		c.Count(fmt.Sprintf("uniform:interleaving:len%d", len(calls)))
 	})
 }
@@ -337,7 +340,7 @@ func c17TernarySessions(c *Ctx) {
 			chain := []uint64{65537, 7937}
 			st := (&c17Stream{}).SM(c.rng.U64(), 256*(1+len(calls)))
 			k++
-			c17Sess(c, 16, chain, []c17Kind{kd}, st, c17Regs(c, 2, 16, chain, k%3), calls)
+			c17Sess(c, 16, chain, []c17Kind{kd}, st, c17Regs(c, 3, 16, chain, k%3), calls)
 			c.Count("ternary:interleaving:" + kd.tag)
 		})
 	}
@@ -442,7 +445,7 @@ func c17GaussSessions(c *Ctx) {
 		sb := c17SigmaBound[k%3]
 		k++
 		st := c17GaussStream(c, 1024*len(calls)+1024, true)
-		c17Sess(c, 16, chain, []c17Kind{{tag: "g", sigma: sb[0], bound: sb[1], mont: k%5 == 0}}, st, c17Regs(c, 2, 16, chain, k%3), calls)
+		c17Sess(c, 16, chain, []c17Kind{{tag: "g", sigma: sb[0], bound: sb[1], mont: k%5 == 0}}, st, c17Regs(c, 3, 16, chain, k%3), calls)
 		c.Count("gauss:interleaving")
 	})
 	for i := 0; i < c.Scale(500, 10000); i++ {
